@@ -12,7 +12,7 @@ import time
 
 from . import core
 
-MIRI_TARGET = os.path.join(core.BUILD, "miri")
+MIRI_TARGET = os.path.join(core.BUILD, "miri")  # core.BUILD already depends on VERIF_REPO
 
 
 def _payload_file(payload):
